@@ -32,6 +32,8 @@ def _docs(rng, n, prefix):
 def generate(rng, tier):
     d1s = _docs(rng, 6, "P")
     d2s = _docs(rng, 6, "Q")
+    # well-formed suffixes whose first block has a type with non-ASCII word characters
+    d2s += ["@%s%s{Qe%d, a = {b}}\n%s" % (t, rng.choice(G.HWS), i, rng.choice(d2s[:6])) for i, t in enumerate(G.EDGE_TYPES)]
     cases = []
     maxlen = 3 if tier == "quick" else 4
     xs = list(G.token_seqs(maxlen))
